@@ -171,29 +171,22 @@ def wire(index, rep, flow):
                                  ["cell_sugar_feed", "scp_feed", "seaweed_feed", "outdoor_crops_feed", "stored_food_feed"]),
                                 ("assert_biofuels_used_below_biofuels_demand", "sum_biofuel_sources",
                                  ["cell_sugar_biofuels", "scp_biofuels", "seaweed_biofuels", "outdoor_crops_biofuels", "stored_food_biofuels"])):
-        fn = index.func(VAL, "Validator." + name)
-        demand = fn.args.args[0].arg
-        res = fn.args.args[1].arg
+        fn0 = index.func(VAL, "Validator." + name)
+        fn = index.flat_func(VAL, "Validator." + name, keep=("sum_feed_sources", "sum_biofuel_sources"))   # a shared checking helper is read through
+        demand = fn0.args.args[0].arg
+        res = fn0.args.args[1].arg
         eps_default = None
-        names = [a.arg for a in fn.args.args]
+        names = [a.arg for a in fn0.args.args]
         if "epsilon" in names:
-            dflt = fn.args.defaults[names.index("epsilon") - (len(names) - len(fn.args.defaults))]
+            dflt = fn0.args.defaults[names.index("epsilon") - (len(names) - len(fn0.args.defaults))]
             eps_default = dflt.value if isinstance(dflt, ast.Constant) else None
-        it = Interp()
-        env = {demand: Obj(None, {}, "demand"), res: Path(("res",)), "epsilon": Rat.atom(("eps",)), "round": Rat.const(1)}
-
-        class D:
-            pass
-
+        inl_v = Inliner(fn)
         asserts = [a for a in walk_no_nested(fn) if isinstance(a, ast.Assert)]
-        total = [s for s in fn.body if isinstance(s, ast.Assign) and isinstance(s.value, ast.Call) and dotted(s.value.func) == "Validator." + summer]
-        red = [s for s in fn.body if isinstance(s, ast.Assign) and "in_units_bil_kcals_thou_tons_thou_tons_per_month()" in norm_src(s.value)]
-        ok = len(asserts) == 1 and len(total) == 1 and len(red) == 1
+        want_total = f"Validator.{summer}({res})"
+        want_red = (f"{want_total}.in_units_bil_kcals_thou_tons_thou_tons_per_month()*(1-epsilon)",
+                    f"(1-epsilon)*{want_total}.in_units_bil_kcals_thou_tons_thou_tons_per_month()")
+        ok = len(asserts) == 1
         if ok:
-            tname, rname = norm_src(total[0].targets[0]), norm_src(red[0].targets[0])
-            okr = norm_src(red[0].value).replace(" ", "") in (
-                f"{tname}.in_units_bil_kcals_thou_tons_thou_tons_per_month()*(1-epsilon)",
-                f"(1-epsilon)*{tname}.in_units_bil_kcals_thou_tons_thou_tons_per_month()")
             # all(-1e-06 < (demand - reduced use).kcals)   (comparisons are read in canonical orientation, see canon.py)
             t = asserts[0].test
             inner = None
@@ -201,14 +194,16 @@ def wire(index, rep, flow):
                 inner = t.args[0]
             elif isinstance(t, ast.Call) and isinstance(t.func, ast.Attribute) and t.func.attr == "all" and not t.args:
                 inner = t.func.value
-            oka = False
+            ok = False
             if isinstance(inner, ast.Compare) and len(inner.ops) == 1 and isinstance(inner.ops[0], (ast.Lt, ast.LtE)):
                 try:
                     bound = float(ast.literal_eval(inner.left))
                 except Exception:
                     bound = None
-                oka = bound is not None and -1e-6 <= bound <= 0 and norm_src(inner.comparators[0]).replace(" ", "") == f"({demand}-{rname}).kcals"
-            ok = okr and oka and norm_src(total[0].value) == f"Validator.{summer}({res})"
+                e_ = inl_v.at(asserts[0]).expr(inner.comparators[0])
+                okd = isinstance(e_, ast.Attribute) and e_.attr == "kcals" and isinstance(e_.value, ast.BinOp) and isinstance(e_.value.op, ast.Sub) \
+                    and norm_src(e_.value.left) == demand and norm_src(e_.value.right).replace(" ", "") in want_red
+                ok = bound is not None and -1e-6 <= bound <= 0 and okd
         rep.check(ok and eps_default is not None and eps_default <= 1e-4, rule, f"{name}:raises-on-excess",
                   "the validator no longer asserts  demand - used x (1 - eps) > -1e-6  (eps <= 1e-4) on the round's total use: an excess would "
                   "pass silently", loc=loc(VAL, fn))
